@@ -147,6 +147,8 @@ def gen(rng, with_constraints):
             aeq[1] = aeq[0]
         bub = np.abs(rng.standard_normal(mub)) * 10.0 ** rng.uniform(-3, 3)
         bub[rng.random(mub) < 0.3] = 0.0
+        if mub and rng.random() < 0.15:
+            aub[int(rng.integers(0, mub))] = 0.0            # a row that cannot move (e.g. only fixed variables): 0 * x <= b
         d.update(aub=aub, bub=bub, aeq=aeq, beq=rng.standard_normal(meq))
     return d
 
@@ -156,7 +158,7 @@ from .subsolver_clauses import tolstep, in_bounds, CLAUSES  # noqa: E402  (z3-fr
 
 class Bounded(Unit):
     fmodel = "ORDER"
-    props = ("C15", "C16", "C01")     # C01's step units assume "the subsolver's step is inside the bounds it was given"
+    props = ("C15", "C16", "C01", "C08")     # C01's step units assume "the subsolver's step is inside the bounds it was given"
     solver = None
     replay = ("contracts.replays", "subsolver_case")
 
@@ -175,13 +177,19 @@ class Bounded(Unit):
         with np.errstate(all="ignore"):
             for k in range(N):
                 d = self.case(rng)
-                for nm, ok in CLAUSES[self.solver](d):
+                exc_nm = f"C15.{self.solver}.returns_without_exception"
+                try:
+                    res = list(CLAUSES[self.solver](d)) + [(exc_nm, True)]
+                except Exception as e:  # noqa: an exception leaving a subproblem solver on admissible data escapes from minimize (C08)
+                    res = [(exc_nm, False)]
+                    d = dict(d, exception=repr(e))
+                for nm, ok in res:
                     if nm not in seen:
                         seen.append(nm)
                     if not ok and nm not in fails:
                         fails[nm] = (k, {kk: (v.tolist() if isinstance(v, np.ndarray) else v) for kk, v in d.items()})
         for nm in sorted(seen):
-            props = [nm[:3]] + (["C01"] if nm.endswith("step_within_bounds") else [])
+            props = [nm[:3]] + (["C01"] if nm.endswith("step_within_bounds") else []) + (["C08"] if nm.endswith("without_exception") else [])
             bad = fails.get(nm)
             c.oblige(f"{nm}[{N} cases]", z3.BoolVal(bad is None), kind="bounded", props=props,
                      note=None if bad is None else f"case {bad[0]}: {bad[1]}",
